@@ -288,6 +288,18 @@ func (w *worker) runPath(x *Explorer, fn *ssa.Function, args []value, script []d
 			}
 		}()
 		// package initialisation, then the harness
+		if I.monitorShared {
+			// every package-level variable of kvql gets its cell before init, so that all of them
+			// are known when the shared objects are marked
+			for _, m := range w.pkg.Members {
+				if g, ok := m.(*ssa.Global); ok {
+					if _, have := I.globals[g]; !have {
+						cell := zero(mustDeref(g.Type()))
+						I.globals[g] = &cell
+					}
+				}
+			}
+		}
 		if init := w.pkg.Func("init"); init != nil {
 			call(nil, 0, init, nil)
 		}
